@@ -71,7 +71,14 @@ void harness(void)
   tries0  = q->try_count;
   writes0 = M_writes;
 
+#ifdef M_OOM
+  vp_alloc_calls   = 0; /* C14/C07: the M_OOM-th allocation of the attempt fails (concrete per job) */
+  vp_alloc_fail_at = M_OOM;
+#endif
   st = ares_send_query(NULL, q, &M_now);
+#ifdef M_OOM
+  vp_alloc_fail_at = 0;
+#endif
 
   for (k = 0; k < RQ_calls; k++)
     if (RQ_query[k] == q) q_requeued++;
